@@ -438,7 +438,38 @@ def where_raised(exc):
     return 'outside'
 
 
+def execute_batch(case):
+    """One descriptor holding several sparsity patterns of the same lattice line (keeps a case above a few ms)."""
+    agg = {'states': 0, 'transitions': 0, 'checks': 0, 'nontrivial': False, 'key': [], 'outcome': set(),
+           'observed_only': [], 'violations': []}
+    nskip = 0
+    for p in case['pats']:
+        one = {k: v for k, v in case.items() if k != 'pats'}
+        one['pat'] = p
+        o = execute(one)
+        if o.get('skipped'):
+            nskip += 1
+            agg['observed_only'].append('inadmissible_point:' + o['skipped'])
+            continue
+        for k in ('states', 'transitions', 'checks'):
+            agg[k] += o[k]
+        agg['nontrivial'] = agg['nontrivial'] or o['nontrivial']
+        agg['key'].append(o['key'])
+        agg['outcome'].update(o['outcome'])
+        agg['observed_only'] += o['observed_only']
+        for v in o['violations']:
+            v.setdefault('case', one)
+            if not any(w['signature'] == v['signature'] for w in agg['violations']):
+                agg['violations'].append(v)
+    if nskip == len(case['pats']):
+        return {'skipped': 'all_patterns_inadmissible'}
+    agg['outcome'] = sorted(agg['outcome'])
+    return agg
+
+
 def execute(case):
+    if 'pats' in case:
+        return execute_batch(case)
     import warnings
     warnings.simplefilter('ignore')
     from pymoto.solvers import auto_determine_solver
@@ -669,18 +700,25 @@ def matrix_points(fams, sizes, pattern_max_n):
     return pts
 
 
-def direct_cases(t, sizes, pattern_max_n, ctor='update', solvers=None):
-    for fam, n, pat in matrix_points(ALL_GEN, sizes, pattern_max_n):
+def direct_cases(t, sizes, pattern_max_n, ctor='update', batch=1):
+    pts = matrix_points(ALL_GEN, sizes, pattern_max_n)
+    if batch > 1:       # group the patterns of one (family, n) line, `batch` per descriptor, same order
+        lines = {}
+        for fam, n, pat in pts:
+            lines.setdefault((fam, n), []).append(pat)
+        pts = [(fam, n, pats[i:i + batch]) for (fam, n), pats in lines.items() for i in range(0, len(pats), batch)]
+    for fam, n, pat in pts:
         for name, (fams, storages) in SOLVERS.items():
-            if solvers is not None and name not in solvers:
-                continue
             if fam not in fams:
                 continue
             if ctor == 'init' and name.startswith('auto'):
                 continue
             for st in storages:
-                yield {'solver': name, 'fam': fam, 'n': n, 'pat': pat, 'storage': st, 'table': t, 'ctor': ctor,
-                       'trans': 'NTH', 'rhs': RHS_ALL, 'hist': 2}
+                c = {'solver': name, 'fam': fam, 'n': n, 'pat': pat, 'storage': st, 'table': t, 'ctor': ctor,
+                     'trans': 'NTH', 'rhs': RHS_ALL, 'hist': 2}
+                if batch > 1:
+                    c['pats'] = c.pop('pat')
+                yield c
 
 
 def cg_gen_cases(t, sizes, pattern_max_n, tols, storages, x0_rhs, ctor='update'):
@@ -761,7 +799,7 @@ def generate(tier, seed):
     yield from cg_fe_cases(t, GRIDS_Q[:2], ['fe_elast_r', 'fe_elast_c'], PRECS_PLAIN + PRECS_MG, [1e-7], ['csc'],
                            X0_RHS_Q, ctor='init')
     yield {'__level__': 'direct/n=4/all-patterns'}
-    yield from direct_cases(t, [4], 4)
+    yield from direct_cases(t, [4], 4, batch=16)
     yield {'__level__': 'cg/n=4/all-patterns'}
     yield from cg_gen_cases(t, [4], 4, [1e-7], ['csc'], X0_RHS_Q)
     yield {'__level__': 'cg/fe/larger-grids'}
